@@ -11,7 +11,7 @@
    In-block decoding is an oracle value per block (Ok objs | Err | Panic), see checks.d/C06.json. *)
 From Coq Require Import ZArith List Bool Lia.
 From Verif Require Import Framing.Model Framing.Valid Framing.Proofs Framing.GenOk
-                          C06.Spec C06.Proofs C06.ProofsDamage.
+                          C06.Spec C06.Proofs C06.ProofsDamage C06.Bridge.
 Import ListNotations.
 Open Scope Z_scope.
 
@@ -67,6 +67,21 @@ Theorem C06_never_crashes : forall (T : Type) (fs : list (frame T)) avail,
   forallb no_dpanic fs = true -> out (scan current fs avail) <> Crashed.
 Proof. exact (@scan_never_crashes). Qed.
 Print Assumptions C06_never_crashes.
+
+(* ... and with layer L1 (theories/Pbf, the model of decode_data.go) the proviso is discharged:
+   when the data payloads are the decodings of ARBITRARY message trees by workers in ARBITRARY
+   decoder states (any in-block damage), no input whatsoever crashes the scan. *)
+Theorem C06_never_crashes_any_tree :
+  forall (c : Verif.Pbf.Model.cfg) (fs : list (frame Verif.Pbf.Model.obj)) avail,
+  Forall (from_tree c) fs -> out (scan current fs avail) <> Crashed.
+Proof. exact never_crashes_on_trees. Qed.
+Print Assumptions C06_never_crashes_any_tree.
+
+(* the "objects of a block" are a function of the block alone, not of the worker that decodes it *)
+Theorem C06_block_outcome_state_independent : forall c st1 st2 m,
+  decode_tree c st1 m = decode_tree c st2 m.
+Proof. exact decode_tree_state_independent. Qed.
+Print Assumptions C06_block_outcome_state_independent.
 
 Theorem C06_getData_never_panics : forall cap0 e, get_data current cap0 e <> GPanic.
 Proof. exact get_data_no_panic. Qed.
